@@ -5,6 +5,10 @@ props=[json.loads(l) for l in open('/verif/properties.jsonl')]
 ids=[p['id'] for p in props]
 TECH="bounded symbolic execution of the Go SSA of the real code (own engine gosym) with SMT-decided path conditions and assertions (z3 5.1 bit-vectors); counterexamples replayed natively"
 claimed={
+ "C02": dict(
+   text="The real thriftgo binary is built from /repo and generates Go code for a designed IDL corpus under 6 option configurations; the generated Write/Read (with apache thrift's TBinaryProtocol, all interpreted from go/ssa) are executed symbolically: for every value of every struct-like (all scalar leaves full-width symbolic, optional presence symbolic, containers/strings of the stated lengths) the bytes written decode under an independent schema-driven reference decoder to exactly that value, and Read of the reference encoding yields that value; an unknown field with a FREE i16 id of any of 11 wire types at any position is skipped, a retagged declared field is skipped (error iff required), a deleted field is an error iff required, a union with 0 or 2 members is refused.",
+   note="The programs dimension is the designed corpus (7 struct-likes in one file; sampled), only values/perturbations are solver-decided. Bounds: container and string length n<=1 quick, <=2 thorough, recursion depth 1. Presentation-only configurations are checked against the same reference (so they cannot change a wire byte). use_type_alias=false, value_type_in_container and cross-include corpora are not covered yet. Trusted: own SSA interpreter + z3 5.1, the reference codec in the harness, corpus naming convention (IDL name -> Go name).",
+   ref="6 C02, 4"),
  "C20": dict(
    text="Bounded symbolic model checking of golang.CodeUtils.HandleOptions/checkBool/validateOptions (option table built by reflection, executed through the engine's reflect model): for every documented boolean option and every value string of 0..3 (thorough 5) FREE bytes the result is an error iff the value is not '', 'true' or 'false', otherwise exactly that feature is switched and every other feature equals the default documented in README.md; ordered pairs and option triples with free positions and values apply sequentially (last write wins, also for names that are prefixes of one another); naming_style/template/use_package with free value strings accept exactly the documented values; slim disables deep-equal; documented invalid combinations are rejected.",
    note="The pair/triple dimension is a finite choice space enumerated through the solver; the solver's own contribution is the value-string dimension. Documented defaults are parsed from README.md on every run; the option -> Features field table is part of the harness. Outside: thriftgo -h text, flag parsing, args.checkOptions' template adaptation.",
